@@ -73,10 +73,27 @@ def _build(spec):
         tr = stream.BufferizeEndpoints({"sink": stream.DIR_SINK, "source": stream.DIR_SOURCE},
                                        pipe_valid=a.get("pv", True), pipe_ready=a.get("pr", False))
         return tr(_build(inner))
-    if cls == "Shifter":
-        sh = stream.Shifter(a["dw"], shift=Constant(a["shift"], max=max(2, a["dw"])))
+    if cls == "Shifter":    # PipelinedActor of latency 2 with a data transformation; `shift` is a per-DUT constant
+        sh = stream.Shifter(a["dw"])
+        sh.comb += sh.shift.eq(a["shift"])
         return sh
+    if cls == "Pipe":       # plain PipelinedActor-derived element: the base class does valid/first/last/pipe_ce,
+        return _Pipe(L, a["latency"])   # the derived class moves payload and param with pipe_ce
     raise ValueError(cls)
+
+
+class _Pipe(stream.PipelinedActor):
+    """what every user of stream.PipelinedActor writes: data registers enabled by pipe_ce"""
+    def __init__(self, layout, latency):
+        self.sink = sink = stream.Endpoint(layout)
+        self.source = source = stream.Endpoint(layout)
+        stream.PipelinedActor.__init__(self, latency)
+        cur = Cat(*(sink.payload.flatten() + sink.param.flatten()))
+        for i in range(latency):
+            r = Signal(len(cur), name="pipe_data%d" % i)
+            self.sync += If(self.pipe_ce, r.eq(cur))
+            cur = r
+        self.comb += Cat(*(source.payload.flatten() + source.param.flatten())).eq(cur)
 
 
 def _raw(rec):
@@ -112,9 +129,10 @@ def make(spec):
 
 
 # ---------------------------------------------------------------------------------------------
-def _cfg(kind, dset=(0, 1), fl=1, pmax=0, ratio=1, reverse=0, w=1, vtc=0, cap=4, idw=1, odw=1, msb=1):
+def _cfg(kind, dset=(0, 1), fl=1, pmax=0, ratio=1, reverse=0, w=1, vtc=0, cap=4, idw=1, odw=1, msb=1, keep=0):
+    # keep: items a composition may legitimately keep inside while no further input arrives (partial groups)
     return {"kind": kind, "dset": list(dset), "fl": fl, "pmax": pmax, "ratio": ratio, "reverse": reverse,
-            "w": w, "vtc": vtc, "cap": cap, "idw": idw, "odw": odw, "msb": msb}
+            "w": w, "vtc": vtc, "cap": cap, "idw": idw, "odw": odw, "msb": msb, "keep": keep}
 
 
 def configs(tier):
@@ -189,10 +207,23 @@ def configs(tier):
                                             {"cls": "Converter", "args": {"nfrom": 2, "nto": 1}},
                                             {"cls": "PipeReady", "dw": 1}]},
               _cfg("down", dset=range(4), ratio=2, w=1, cap=6)))
+    # PipelinedActor users: a plain latency-2 element and stream.Shifter (latency 2 + data transformation)
+    L.append(({"cls": "Pipe", "args": {"latency": 2}, "dw": 1}, _cfg("id", cap=2)))
+    L.append(({"cls": "Shifter", "args": {"dw": 2, "shift": 1}}, dict(_cfg("shift", dset=range(4), idw=2, cap=2), shift=1)))
+    L.append(({"cls": "Shifter", "args": {"dw": 3, "shift": 2}},
+              dict(_cfg("shift", dset=range(8), fl=0, idw=3, cap=2), shift=2)))
     if tier == "thorough":
+        L.append(({"cls": "Pipe", "args": {"latency": 2}, "dw": 1, "pw": 1}, _cfg("id", pmax=1, cap=2)))
+        L.append(({"cls": "Pipe", "args": {"latency": 1}, "dw": 1}, _cfg("id", cap=1)))
+        L.append(({"cls": "Pipe", "args": {"latency": 3}, "dw": 1}, _cfg("id", cap=3)))
+        L.append(({"cls": "Shifter", "args": {"dw": 2, "shift": 0}}, dict(_cfg("shift", dset=range(4), idw=2, cap=2), shift=0)))
+        L.append(({"cls": "Shifter", "args": {"dw": 3, "shift": 1}},
+                  dict(_cfg("shift", dset=range(8), fl=0, idw=3, cap=2), shift=1)))
+        L.append(({"cls": "Shifter", "args": {"dw": 4, "shift": 3}},
+                  dict(_cfg("shift", dset=(0, 1, 6, 8, 11, 15), fl=0, idw=4, cap=2), shift=3)))
         for depth, buf in [(4, False), (4, True), (3, False)]:
             L.append(({"cls": "SyncFIFO", "args": {"depth": depth, "buffered": buf}, "dw": 1},
-                      _cfg("id", cap=depth + 3, fl=1 if depth <= 4 else 0)))
+                      _cfg("id", cap=depth + 3, fl=1 if depth == 3 else 0)))
         L.append(({"cls": "Delay", "args": {"n": 3}, "dw": 1}, _cfg("id", cap=5)))
         for nfrom, nto, rev, vtc in [(1, 8, False, True), (1, 3, True, True), (2, 6, False, False)]:
             r = nto // nfrom
@@ -211,10 +242,10 @@ def configs(tier):
                       _cfg("gear", dset=ds, fl=0, idw=i, odw=o, msb=int(msb), cap=4 * lcm)))
         L.append(({"cls": "Pipeline", "stages": [{"cls": "Gearbox", "args": {"i": 2, "o": 3}},
                                                 {"cls": "Gearbox", "args": {"i": 3, "o": 2}}]},
-                  _cfg("gear", dset=range(4), fl=0, idw=2, odw=2, msb=1, cap=40)))
+                  _cfg("gear", dset=range(4), fl=0, idw=2, odw=2, msb=1, cap=40, keep=4)))
         L.append(({"cls": "Pipeline", "stages": [{"cls": "Pack", "args": {"n": 2}, "dw": 1},
                                                 {"cls": "Unpack", "args": {"n": 2}, "dw": 1}], "dw": 1},
-                  _cfg("id", fl=0, cap=6)))
+                  _cfg("id", fl=0, cap=6, keep=1)))
     return L
 
 
